@@ -3,12 +3,13 @@
   `handler : List String → Option String` (`none` = "not my command").
 -/
 import GffModel.Proto
+import GffModel.ProtoC17
 
 namespace GffModel
 namespace ProtoAll
 
 def handlers : List (List String → Option String) :=
-  [Proto.stepPure]
+  [Proto.stepPure, ProtoC17.handler]
 
 def step (ws : List String) : Option String :=
   handlers.findSome? (fun h => h ws)
